@@ -17,6 +17,7 @@ import (
 	"strings"
 	"sync"
 	"sync/atomic"
+	"verif/harness/refcose"
 	"verif/harness/testkeys"
 
 	cose "github.com/veraison/go-cose"
@@ -126,6 +127,27 @@ func c18objects(seed int64, keys *gen.KeyRing, n int) []*c18object {
 					{"Verify(no external)", func() string { return resErr(m.Verify(nil, k.Verifier)) }},
 					{"MarshalCBOR", func() string { return resBytes(m.MarshalCBOR()) }},
 					{"Untagged.Verify", func() string { return resErr((*cose.UntaggedSign1Message)(m).Verify(ext2, k.Verifier)) }},
+				}
+				out = append(out, o)
+				continue
+			}
+		}
+		if (i/42)%7 == 0 && (i%7 == 6 || i%7 == 2) && !decoded {
+			// a message assembled from raw header bytes only (as read from a store or another parser): the
+			// parsed maps are nil, the bytes carry the algorithm; validly signed by the reference signer
+			content := refcbor.Encode(refcbor.NMap(refcbor.NInt(1), refcbor.NInt(int64(k.Alg)), refcbor.NInt(4), refcbor.NBstr([]byte("kid"))))
+			rawProt := refcbor.Encode(refcbor.NBstr(content))
+			if k.Priv != nil {
+				sig := gen.RefSign(k.Ref(), refcose.Sign1Structure(content, nil, payload))
+				m := &cose.Sign1Message{Headers: cose.Headers{RawProtected: rawProt, RawUnprotected: []byte{0xa0}}, Payload: payload, Signature: sig}
+				o := &c18object{name: fmt.Sprintf("sign1-raw-headers-only-%d", i), kind: "sign1-raw-headers-only", alg: k.Name}
+				o.state = func() []any { return []any{m, k.Verifier} }
+				o.ops = []c18op{
+					{"Verify", func() string { return resErr(m.Verify(nil, k.Verifier)) }},
+					{"Verify(external)", func() string { return resErr(m.Verify([]byte("x"), k.Verifier)) }},
+					{"MarshalCBOR", func() string { return resBytes(m.MarshalCBOR()) }},
+					{"Untagged.Verify", func() string { return resErr((*cose.UntaggedSign1Message)(m).Verify(nil, k.Verifier)) }},
+					{"Headers.MarshalProtected", func() string { return resBytes(m.Headers.MarshalProtected()) }},
 				}
 				out = append(out, o)
 				continue
